@@ -4,8 +4,10 @@
 package vnet
 
 import (
+	"context"
 	"fmt"
 	"net"
+	"syscall"
 	"time"
 
 	"github.com/bluenviron/gomavlib/v3/pkg/vmc"
@@ -68,13 +70,34 @@ func ListenPacket(network, address string) (net.PacketConn, error) {
 
 // Dialer replaces net.Dialer.
 type Dialer struct {
-	Timeout time.Duration
+	Timeout  time.Duration
+	Deadline time.Time
+	// the remaining fields of net.Dialer are accepted and have no effect on the fakes
+	LocalAddr       net.Addr
+	DualStack       bool
+	FallbackDelay   time.Duration
+	KeepAlive       time.Duration
+	KeepAliveConfig net.KeepAliveConfig
+	Resolver        *net.Resolver
+	Cancel          <-chan struct{}
+	Control         func(network, address string, c syscall.RawConn) error
+	ControlContext  func(ctx context.Context, network, address string, c syscall.RawConn) error
 }
 
-// DialContext goes to the scenario.
+// DialContext goes to the scenario; Timeout / Deadline bound the attempt like net.Dialer's.
 func (d *Dialer) DialContext(ctx vctx.Context, network, address string) (net.Conn, error) {
 	if DialHook == nil {
 		panic("vnet: Dial without a scenario hook")
+	}
+	if d != nil && d.Timeout > 0 {
+		c, cancel := vctx.WithTimeout(ctx, d.Timeout)
+		defer cancel()
+		ctx = c
+	}
+	if d != nil && !d.Deadline.IsZero() {
+		c, cancel := vctx.WithDeadline(ctx, d.Deadline)
+		defer cancel()
+		ctx = c
 	}
 	return DialHook(ctx, network, address)
 }
@@ -93,10 +116,7 @@ func DialTimeout(network, address string, timeout time.Duration) (net.Conn, erro
 
 // Dial goes to the scenario's dial hook.
 func (d *Dialer) Dial(network, address string) (net.Conn, error) {
-	if d.Timeout > 0 {
-		return DialTimeout(network, address, d.Timeout)
-	}
-	return Dial(network, address)
+	return d.DialContext(vctx.Background(), network, address)
 }
 
 // ---- fakes
@@ -435,7 +455,7 @@ func (c *FakePacketConn) ReadFrom(p []byte) (int, net.Addr, error) {
 // WriteTo implements net.PacketConn.
 func (c *FakePacketConn) WriteTo(p []byte, addr net.Addr) (int, error) {
 	vmc.Step("writeto " + c.Name)
-	defer vmc.EnvEvent(&c.O, 3)
+	defer vmc.EnvEvent(&c.O, 4)
 	if c.closed {
 		return 0, ErrClosed
 	}
@@ -448,7 +468,7 @@ func (c *FakePacketConn) WriteTo(p []byte, addr net.Addr) (int, error) {
 func (c *FakePacketConn) Close() error {
 	vmc.Step("close " + c.Name)
 	c.CloseCalls++
-	defer vmc.EnvEvent(&c.O, 4)
+	defer vmc.EnvEvent(&c.O, 5)
 	if c.closed {
 		c.CloseReturned++
 		return ErrClosed
